@@ -34,10 +34,11 @@ type coop struct {
 }
 
 type coopActor struct {
-	id     int
-	resume chan struct{}
-	done   bool
-	inOp   bool // inside a registry operation (parked at one of its yield sites)
+	id        int
+	resume    chan struct{}
+	done      bool
+	inOp      bool   // inside a registry operation (parked at one of its yield sites)
+	lastTried uint64 // scheduler step at which the actor last came back from a "discover.tried" yield
 }
 
 // othersIdle: no other actor is in the middle of a registry operation.
@@ -58,6 +59,9 @@ func (c *coop) yield(site string) {
 	c.sites[site]++
 	c.back <- struct{}{}
 	<-a.resume
+	if site == "discover.tried" {
+		a.lastTried = c.step
+	}
 }
 
 func (c *coop) run() {
@@ -260,6 +264,14 @@ func scenRegistry(s *spec.RunSpec, res *spec.RunResult, finish func(*World)) {
 	reg.SetHintMandatory(rs.Mandatory)
 	c := &coop{seed: s.Seed, back: make(chan struct{}), sites: map[string]int{}}
 	serveruser.VerifYield = c.yield
+	togglesMandatory := false
+	for _, ops := range rs.Actors {
+		for _, op := range ops {
+			if op.Op == "mandatory" {
+				togglesMandatory = true
+			}
+		}
+	}
 	var history []*regOp
 	for ai, ops := range rs.Actors {
 		a := &coopActor{id: ai, resume: make(chan struct{})}
@@ -300,6 +312,15 @@ func scenRegistry(s *spec.RunSpec, res *spec.RunResult, finish func(*World)) {
 						if op.Record {
 							auth.Record()
 						}
+					}
+					// A discovery that must be current (the TCP path) decides after its last
+					// attempt: a reload that completed before that instant must be honoured
+					// ("once a reload has completed no new connection is authenticated with a
+					// credential that is no longer registered"). The hint-mandatory flag is
+					// read before the attempt and carries no such promise, so the interval is
+					// only narrowed in runs that never toggle it.
+					if op.Current && !togglesMandatory && a.lastTried > rec.call {
+						rec.call = a.lastTried
 					}
 				}
 				a.inOp = false
